@@ -200,3 +200,25 @@ def not_constant(a):
         else:
             a[-1] = a[0] - 1 if a[0] > 0 else a[0] + 1
     return a
+
+
+def byte_twins(rng, n):
+    """Two different records whose raw bytes coincide (signed / unsigned of the same width, or another length at another width):
+    (a, b).  A result remembered under the bytes of its input -- without dtype and shape -- is handed to the wrong record."""
+    k = int(rng.integers(4))
+    if k == 0:
+        a = rng.integers(-120, 121, size=n).astype(np.int8)
+        a[int(rng.integers(n))] = -100
+        return a, a.view(np.uint8).copy()
+    if k == 1:
+        a = rng.integers(-30000, 30001, size=n).astype(np.int16)
+        a[int(rng.integers(n))] = -20000
+        return a, a.view(np.uint16).copy()
+    if k == 2:
+        a = rng.integers(-100000, 100001, size=n).astype(np.int32)
+        a[int(rng.integers(n))] = -70000
+        return a, a.view(np.uint32).copy()
+    m = 2 * max(1, n // 2)
+    a = rng.integers(1, 9, size=m).astype(np.int32)
+    a[1::2] = 0                                                # int32 [1,0,2,0,..] read as int64 is [1,2,..] (little endian)
+    return a, a.view(np.int64).copy()
